@@ -12,6 +12,8 @@ CONSTANTS
   MaxMarkers = 0
   MaxLen = 14
   FreshLen = 0
+  Family = "seq"
+  PosLen = 0
   SimMode = TRUE
 INVARIANT GenInv
 CHECK_DEADLOCK FALSE
